@@ -1,0 +1,25 @@
+//go:build verif
+// +build verif
+
+package mqtt
+
+import "sync/atomic"
+
+// Instrumentation points for the external verification harness (build tag "verif" only).
+// A hook may block: the harness uses that to gate a goroutine at a chosen point.
+
+var verifHook atomic.Value // of func(point string, args ...int64)
+
+// VerifSetHook installs (or, with nil, removes) the instrumentation callback.
+func VerifSetHook(h func(point string, args ...int64)) {
+	if h == nil {
+		h = func(string, ...int64) {}
+	}
+	verifHook.Store(h)
+}
+
+func verifEvent(point string, args ...int64) {
+	if h, ok := verifHook.Load().(func(string, ...int64)); ok {
+		h(point, args...)
+	}
+}
